@@ -75,3 +75,47 @@ def run(prog):
                          "(found retains removing %s): keys pressed by the cancelled macro stay down forever"
                          % (f.norm, [vs for _, vs in found]))
     return res
+
+
+OWED = {"Custom": "its release runs the custom action's release handler (mouse button up, scroll / mouse-move stop, unmod key up)",
+        "SeqCustomActive": "a macro's custom action was pressed and its release is sent on the next tick of the macro"}
+RELEASE_FNS = ("kanata_keyberon::layout::State::release",)
+
+
+def rule_owed(prog):
+    """R-CANCEL-OWED (C01, C08): states that owe a release are never dropped wholesale.
+
+    `State::Custom` and `State::SeqCustomActive` are the only record that a custom action is pressed; the release
+    side effect happens when State::release turns them into a CustomEvent::Release. A `states.retain(..)` whose
+    closure can return false for these variants without going through State::release forgets the release: the
+    mouse button / scrolling / unmod key stays on. Every retain over Layout.states in the kanata crates is examined."""
+    res = RuleResult("R-CANCEL-OWED", "no states.retain drops Custom / SeqCustomActive states without State::release", floor=10)
+    for f in list(prog.fns.values()):
+        if not f.crate.startswith("kanata") or f.derive:
+            continue
+        per = 0
+        for bi, t in f.calls():
+            if (callee_name(t) or "").split("::")[-1] not in ("retain", "retain_mut") or len(t["args"]) < 2:
+                continue
+            fl = receiver_fields(f, t)
+            if not fl or fl[-1] != "states":
+                continue
+            c = closure_arg(prog, f, t["args"][1])
+            key = "%s/retain%s" % (f.norm, "#%d" % per if per else "")
+            per += 1
+            res.fn(f)
+            if c is None:
+                res.inst(key, where="%s:%s" % (f.file, t.get("ln")), how="predicate is not a closure literal", ok=False)
+                res.oblige(False)
+                res.viol(key, "%s:%s" % (f.file, t.get("ln")), "states.retain with a predicate that is not a closure literal: cannot see which states it drops")
+                continue
+            via_release = any((callee_name(t2) or "") in RELEASE_FNS for _, t2 in c.calls())
+            removed = sorted(closure_false_variants(prog, c))
+            bad = [v for v in removed if v in OWED] if not via_release else []
+            res.inst(key, where="%s:%s" % (f.file, t.get("ln")), removes=removed, via_state_release=via_release, ok=not bad)
+            res.oblige(not bad)
+            for v in bad:
+                res.viol(key + "|" + v, "%s:%s" % (f.file, t.get("ln")),
+                         "this states.retain drops State::%s without passing it through State::release: %s, so dropping the state "
+                         "loses that release and the output stays on" % (v, OWED[v]))
+    return res
